@@ -579,6 +579,34 @@ fn generator_probes(probes: &mut Vec<Probe>) {
     gens!(EL, "EL");
 }
 
+/// Conversions out of an AdjacencyMap whose ids are not 0..order: the other
+/// representations cannot hold such a digraph and must panic, not corrupt memory.
+fn sparse_conversion_probes(sparse: &[(String, Vec<usize>, Vec<(usize, usize)>)], probes: &mut Vec<Probe>) {
+    for (label, vs, arcs) in sparse.iter() {
+        let d0 = std::rc::Rc::new(AM::build(vs, arcs));
+        macro_rules! conv {
+            ($name:expr, $e:expr) => {{
+                let d = std::rc::Rc::clone(&d0);
+                probes.extend(pw(true, || format!("AM {label} :: {}", $name), || Box::new(move || {
+                    let m: AM = (*d).clone();
+                    let _ = catch_unwind(AssertUnwindSafe(|| $e(m).size()));
+                }) as Box<dyn Fn()>));
+            }};
+        }
+        conv!("AdjacencyList::from(map)", |m| AL::from(m));
+        conv!("AdjacencyMatrix::from(map)", |m| AX::from(m));
+        conv!("EdgeList::from(map)", |m| EL::from(m));
+        conv!("AdjacencyListWeighted::<usize>::from(map)", |m| WU::from(m));
+        conv!("AdjacencyListWeighted::<isize>::from(map)", |m| WI::from(m));
+        let d = std::rc::Rc::clone(&d0);
+        probes.extend(pw(true, || format!("AM {label} :: relations and union with contiguous digraphs"), || Box::new(move || {
+            let c = AM::cycle(3);
+            let _ = (d.is_subdigraph(&c), c.is_subdigraph(&d), d.is_spanning_subdigraph(&c), d.is_superdigraph(&c));
+            let _ = (d.union(&c).size(), c.union(&d).size());
+        }) as Box<dyn Fn()>));
+    }
+}
+
 fn conversion_probes(cat: &[(String, Vec<usize>, Vec<(usize, usize)>)], probes: &mut Vec<Probe>) {
     for (label, vs, arcs) in cat.iter() {
         let (vs, arcs) = (vs.clone(), arcs.clone());
@@ -841,6 +869,7 @@ pub fn catalogue(full: bool, only: Option<usize>) -> Vec<Group> {
     group!("johnson/AM-sparse", |pr: &mut Vec<Probe>| johnson_probes(&sparse, pr));
     group!("generators", |pr: &mut Vec<Probe>| generator_probes(pr));
     group!("conversions", |pr: &mut Vec<Probe>| conversion_probes(&cat, pr));
+    group!("conversions/AM-sparse", |pr: &mut Vec<Probe>| sparse_conversion_probes(&sparse, pr));
     group!("predecessor-tree", |pr: &mut Vec<Probe>| predecessor_tree_probes(if full { 3 } else { 2 }, pr));
     group!("distance-matrix", |pr: &mut Vec<Probe>| distance_matrix_probes(pr));
     group!("overflow", |pr: &mut Vec<Probe>| overflow_probes(pr));
